@@ -181,6 +181,11 @@ pub mod ss {
         &&& count_inv(g, bs)
         &&& first_key(pools_of(bs), Seq::<char>::empty()) >= 0
         &&& st_of(bs).len() < 0x7fff_ffff_ffff_0000
+        &&& cmd_inv(g, st_of(bs))
+    }
+    /// only steps with a command line are ever queued or run (phony steps go Ready -> Done)
+    pub open spec fn cmd_inv(g: Graph, st: Seq<BuildState>) -> bool {
+        forall|b: int| 0 <= b < st.len() && (rank(#[trigger] st[b]) == 3 || rank(st[b]) == 4) ==> !phony(gs::builds(g)[b])
     }
     pub open spec fn in_some_queue(bs: BuildStates, id: BuildId) -> bool {
         exists|j: int| 0 <= j < pools_of(bs).len() && (#[trigger] pools_of(bs)[j]).1.queued@.contains(id)
@@ -284,6 +289,7 @@ pub mod ss {
         &&& (prev == BuildState::Ready ==> !b0.ready@.contains(id))
         &&& (prev == BuildState::Queued ==> !in_some_queue(b0, id))
         &&& (state == BuildState::Running ==> pi >= 0 && (pools_of(b0)[pi].1.depth == 0 || pools_of(b0)[pi].1.running < pools_of(b0)[pi].1.depth))
+        &&& (state == BuildState::Queued ==> !phony(gs::builds(g)[i]))
     }
     /// the local precondition of BuildStates::set follows from the invariant
     pub proof fn lemma_set_pre(g: Graph, b0: BuildStates, id: BuildId, state: BuildState)
@@ -451,6 +457,9 @@ pub mod ss {
         assert forall|b: int| 0 <= b < st1.len() && rank(#[trigger] st1[b]) == 4 implies pool_ix(g, b1, b) >= 0 by {
             if b != i { assert(st1[b] == st0[b]); }
         }
+        assert forall|b: int| 0 <= b < st1.len() && (rank(#[trigger] st1[b]) == 3 || rank(st1[b]) == 4) implies !phony(gs::builds(g)[b]) by {
+            if b != i { assert(st1[b] == st0[b]); }
+        }
     }
 
     // --- want_file / want_build vocabulary (C01 readiness, C06 termination, C18 closure)
@@ -571,6 +580,158 @@ pub mod ss {
     }
     pub open spec fn all_done(g: Graph, st: Seq<BuildState>, s: Seq<FileId>) -> bool {
         forall|j: int| 0 <= j < s.len() ==> producer_done(g, st, #[trigger] s[j])
+    }
+
+    // --- potential function for termination of Work::run (C06)
+    pub open spec fn pot(st: Seq<BuildState>) -> int
+        decreases st.len()
+    { if st.len() == 0 { 0 } else { pot(st.drop_last()) + 5 - rank(st.last()) } }
+    pub proof fn lemma_pot_update(st: Seq<BuildState>, i: int, v: BuildState)
+        requires 0 <= i < st.len()
+        ensures pot(st.update(i, v)) == pot(st) + rank(st[i]) - rank(v), 0 <= pot(st) <= 5 * st.len()
+        decreases st.len()
+    {
+        if i == st.len() - 1 { assert(st.update(i, v).drop_last() =~= st.drop_last()); lemma_pot_bound(st.drop_last()); }
+        else { assert(st.update(i, v).drop_last() =~= st.drop_last().update(i, v)); lemma_pot_update(st.drop_last(), i, v); }
+    }
+    pub proof fn lemma_pot_bound(st: Seq<BuildState>)
+        ensures 0 <= pot(st) <= 5 * st.len()
+        decreases st.len()
+    { if st.len() > 0 { lemma_pot_bound(st.drop_last()); } }
+    pub proof fn lemma_pot_rd(s0: Seq<BuildState>, s1: Seq<BuildState>)
+        requires rd_rel(s0, s1)
+        ensures pot(s1) <= pot(s0)
+        decreases s0.len()
+    {
+        if s0.len() > 0 {
+            assert(s1.last() == s0.last() || (s0.last() == BuildState::Want && s1.last() == BuildState::Ready));
+            assert forall|b: int| 0 <= b < s0.drop_last().len() implies (#[trigger] s1.drop_last()[b]) == s0.drop_last()[b] || (s0.drop_last()[b] == BuildState::Want && s1.drop_last()[b] == BuildState::Ready) by {
+                assert(s1[b] == s0[b] || (s0[b] == BuildState::Want && s1[b] == BuildState::Ready));
+            }
+            lemma_pot_rd(s0.drop_last(), s1.drop_last());
+        }
+    }
+    /// ready_dependents strictly lowers the potential (id: Ready/Running -> Done)
+    pub proof fn lemma_pot_rd_effect(b0: BuildStates, b1: BuildStates, id: BuildId)
+        requires rd_effect(b0, b1, id), ix(id) < st_of(b0).len(), rank(st_of(b0)[ix(id)]) < 5
+        ensures pot(st_of(b1)) < pot(st_of(b0))
+    {
+        let mid = st_of(b0).update(ix(id), BuildState::Done);
+        lemma_pot_update(st_of(b0), ix(id), BuildState::Done);
+        assert(rd_rel(mid, st_of(b1))) by {
+            assert forall|b: int| 0 <= b < mid.len() implies (#[trigger] st_of(b1)[b]) == mid[b] || (mid[b] == BuildState::Want && st_of(b1)[b] == BuildState::Ready) by {}
+        }
+        lemma_pot_rd(mid, st_of(b1));
+    }
+
+    // --- popping queues keeps the invariant
+    pub proof fn lemma_pop_ready(g: Graph, b0: BuildStates, b1: BuildStates, id: BuildId)
+        requires bs_inv(g, b0), b0.ready@.len() > 0, id == b0.ready@[0], b1.ready@ == b0.ready@.drop_first(),
+            b1.states == b0.states, b1.counts == b0.counts, b1.total_pending == b0.total_pending, b1.pools == b0.pools
+        ensures bs_inv(g, b1), ix(id) < st_of(b1).len(), st_of(b1)[ix(id)] == BuildState::Ready, !b1.ready@.contains(id)
+    {
+        let q0 = b0.ready@;
+        let q1 = b1.ready@;
+        assert forall|k: int| 0 <= k < q1.len() implies ix(#[trigger] q1[k]) < st_of(b1).len() && st_of(b1)[ix(q1[k])] == BuildState::Ready by { assert(q1[k] == q0[k + 1]); }
+        assert forall|i: int, j: int| 0 <= i < j < q1.len() implies q1[i] != q1[j] by { assert(q1[i] == q0[i + 1] && q1[j] == q0[j + 1]); }
+        if q1.contains(id) { let k = choose|k: int| 0 <= k < q1.len() && q1[k] == id; assert(q0[k + 1] == q0[0]); }
+        assert(st_of(b0)[ix(q0[0])] == BuildState::Ready);
+        lemma_bs_inv_views(g, b0, b1);
+    }
+    /// bs_inv only depends on the views of the pieces
+    pub proof fn lemma_bs_inv_views(g: Graph, b0: BuildStates, b1: BuildStates)
+        requires bs_inv(g, b0), st_of(b1) == st_of(b0), b1.counts.0@ == b0.counts.0@, b1.total_pending == b0.total_pending,
+            queue_ok(g, b1, b1.ready@, BuildState::Ready, -1),
+            pools_of(b1).len() == pools_of(b0).len(),
+            forall|j: int| 0 <= j < pools_of(b0).len() ==> (#[trigger] pools_of(b1)[j]).0 == pools_of(b0)[j].0
+                && pools_of(b1)[j].1.running == pools_of(b0)[j].1.running && pools_of(b1)[j].1.depth == pools_of(b0)[j].1.depth
+                && queue_ok(g, b1, pools_of(b1)[j].1.queued@, BuildState::Queued, j),
+        ensures bs_inv(g, b1)
+    {
+        lemma_pool_ix_same(g, b0, b1);
+        assert forall|j: int| 0 <= j < pools_of(b1).len() implies
+            (#[trigger] pools_of(b1)[j]).1.running as int == count(st_of(b1), running_in(g, b1, j)) by {
+            let _ = pools_of(b0)[j];
+            lemma_count_ext(st_of(b1), running_in(g, b0, j), running_in(g, b1, j));
+        }
+        assert forall|b: int| 0 <= b < st_of(b1).len() && rank(#[trigger] st_of(b1)[b]) == 4 implies pool_ix(g, b1, b) >= 0 by {}
+    }
+    pub proof fn lemma_pop_queued(g: Graph, b0: BuildStates, b1: BuildStates, r: Option<BuildId>)
+        requires bs_inv(g, b0), pop_effect(b0, b1, r)
+        ensures bs_inv(g, b1), r is Some ==> set_ok(g, b1, r.unwrap(), BuildState::Running) && st_of(b1)[ix(r.unwrap())] == BuildState::Queued
+    {
+        let pi = pop_ix(pools_of(b0));
+        lemma_pop_ix(pools_of(b0));
+        lemma_pool_ix_same(g, b0, b1);
+        assert(queue_ok(g, b1, b1.ready@, BuildState::Ready, -1));
+        assert forall|j: int| 0 <= j < pools_of(b0).len() implies queue_ok(g, b1, (#[trigger] pools_of(b1)[j]).1.queued@, BuildState::Queued, j) by {
+            let q0 = pools_of(b0)[j].1.queued@;
+            let q1 = pools_of(b1)[j].1.queued@;
+            if j == pi {
+                assert forall|k: int| 0 <= k < q1.len() implies ix(#[trigger] q1[k]) < st_of(b1).len() && st_of(b1)[ix(q1[k])] == BuildState::Queued && pool_ix(g, b1, ix(q1[k])) == j by { assert(q1[k] == q0[k + 1]); }
+                assert forall|a: int, c: int| 0 <= a < c < q1.len() implies q1[a] != q1[c] by { assert(q1[a] == q0[a + 1] && q1[c] == q0[c + 1]); }
+            } else {
+                assert forall|k: int| 0 <= k < q1.len() implies ix(#[trigger] q1[k]) < st_of(b1).len() && st_of(b1)[ix(q1[k])] == BuildState::Queued && pool_ix(g, b1, ix(q1[k])) == j by { assert(q1[k] == q0[k]); }
+            }
+        }
+        lemma_bs_inv_views(g, b0, b1);
+        if r is Some {
+            let id = r.unwrap();
+            let q0 = pools_of(b0)[pi].1.queued@;
+            assert(q0[0] == id);
+            assert(st_of(b0)[ix(q0[0])] == BuildState::Queued && pool_ix(g, b0, ix(q0[0])) == pi);
+            if in_some_queue(b1, id) {
+                let j = choose|j: int| 0 <= j < pools_of(b1).len() && (#[trigger] pools_of(b1)[j]).1.queued@.contains(id);
+                let q1 = pools_of(b1)[j].1.queued@;
+                let k = choose|k: int| 0 <= k < q1.len() && q1[k] == id;
+                if j == pi { assert(q1[k] == q0[k + 1]); assert(q0[k + 1] == q0[0]); }
+                else { assert(pool_ix(g, b1, ix(q1[k])) == j); }
+            }
+        }
+    }
+    // --- record_finished may add files and replace one build's discovered inputs; nothing the scheduler looks at
+    pub open spec fn graph_ext(g0: Graph, g1: Graph) -> bool {
+        &&& gs::builds(g1).len() == gs::builds(g0).len()
+        &&& forall|b: int| 0 <= b < gs::builds(g0).len() ==> (#[trigger] gs::builds(g1)[b]).ins == gs::builds(g0)[b].ins
+                && gs::builds(g1)[b].outs == gs::builds(g0)[b].outs && gs::builds(g1)[b].pool == gs::builds(g0)[b].pool
+                && (gs::builds(g1)[b].cmdline is None) == (gs::builds(g0)[b].cmdline is None)
+        &&& gs::files(g1).len() >= gs::files(g0).len()
+        &&& forall|f: int| 0 <= f < gs::files(g0).len() ==> (#[trigger] gs::files(g1)[f]).input == gs::files(g0)[f].input
+    }
+    pub proof fn lemma_graph_ext(g0: Graph, g1: Graph, bs: BuildStates)
+        requires bs_inv(g0, bs), gs::wf_graph(g1), graph_ext(g0, g1)
+        ensures bs_inv(g1, bs)
+    {
+        let st = st_of(bs);
+        assert forall|b: int| 0 <= b < st.len() && rank(#[trigger] st[b]) >= 2 implies producers_done(g1, st, b) by {
+            assert(producers_done(g0, st, b));
+            let _ = gs::builds(g1)[b];
+            assert(gs::wf_build(gs::builds(g0)[b]) && gs::build_ids_ok(g0, gs::builds(g0)[b]));
+            let ins = gs::ordering_ins(gs::builds(g1)[b]);
+            assert(ins == gs::ordering_ins(gs::builds(g0)[b]));
+            assert forall|j: int| 0 <= j < ins.len() implies producer_done(g1, st, #[trigger] ins[j]) by {
+                assert(producer_done(g0, st, ins[j]));
+                let _ = gs::files(g1)[ix(ins[j])];
+            }
+        }
+        assert forall|b: int| pool_ix(g1, bs, b) == pool_ix(g0, bs, b) || !(0 <= b < st.len()) by {
+            if 0 <= b < st.len() { let _ = gs::builds(g1)[b]; }
+        }
+        assert(queue_ok(g1, bs, bs.ready@, BuildState::Ready, -1));
+        assert forall|j: int| 0 <= j < pools_of(bs).len() implies
+            (#[trigger] pools_of(bs)[j]).1.running as int == count(st, running_in(g1, bs, j))
+            && queue_ok(g1, bs, pools_of(bs)[j].1.queued@, BuildState::Queued, j) by {
+            assert forall|i: int| 0 <= i < st.len() implies running_in(g0, bs, j)(i, st[i]) == running_in(g1, bs, j)(i, st[i]) by { let _ = gs::builds(g1)[i]; }
+            lemma_count_ext(st, running_in(g0, bs, j), running_in(g1, bs, j));
+            let q = pools_of(bs)[j].1.queued@;
+            assert forall|k: int| 0 <= k < q.len() implies pool_ix(g1, bs, ix(#[trigger] q[k])) == j by { let _ = gs::builds(g1)[ix(q[k])]; }
+        }
+        assert forall|b: int| 0 <= b < st.len() && rank(#[trigger] st[b]) == 4 implies pool_ix(g1, bs, b) >= 0 by { let _ = gs::builds(g1)[b]; }
+        assert forall|k: int| 0 <= k < 6 implies (#[trigger] bs.counts.0@[k]) as int == count(st, counted(g1, state_of_idx(k))) by {
+            assert forall|i: int| 0 <= i < st.len() implies counted(g0, state_of_idx(k))(i, st[i]) == counted(g1, state_of_idx(k))(i, st[i]) by { let _ = gs::builds(g1)[i]; }
+            lemma_count_ext(st, counted(g0, state_of_idx(k)), counted(g1, state_of_idx(k)));
+        }
+        assert forall|b: int| 0 <= b < st.len() && (rank(#[trigger] st[b]) == 3 || rank(st[b]) == 4) implies !phony(gs::builds(g1)[b]) by { let _ = gs::builds(g1)[b]; }
     }
     }
 }
